@@ -107,11 +107,13 @@ def fill_direct(ctx):
 
     rows, metas = [], []
     for sig in signatures(4):
-        for method in (False, True):
-            func = make_func(sig, method)
+        # "static": called through an attribute but without a receiver parameter (staticmethod / classmethod as
+        # getattr(cls, name) hands them over): every parameter is the caller's
+        for method in (False, True, "static"):
+            func = make_func(sig, method is True)
             psx = "(" + " ".join(tc._param_sx(p) for p in inspect.signature(func).parameters.values()) + ")"
             for npos, kws in call_shapes(sig, extra=True):
-                node = mk_call(npos, kws, method)
+                node = mk_call(npos, kws, bool(method))
                 rows.append([psx, "(" + " ".join(bridge.to_sx(a) for a in node.args) + ")",
                              "(" + " ".join(bridge.hx(k.arg) for k in node.keywords) + ")",
                              "(" + " ".join(bridge.to_sx(k.value) for k in node.keywords) + ")"])
@@ -121,7 +123,7 @@ def fill_direct(ctx):
     for (sig, method, func, node), ans in zip(metas, answers):
         ctx.evaluations += 1
         ctx.corr_cases += 1
-        want = bind_oracle(func, node, method)
+        want = bind_oracle(func, node, method is True)
         try:
             out, _ = _fill_in_default_arguments(func, copy.deepcopy(node))
             got = "OK (%s) (%s) (%s)" % (" ".join(bridge.to_sx(a) for a in out.args),
